@@ -177,8 +177,9 @@ pub fn par1_plans(th: bool, mode: Mode, cache_only: bool) -> Vec<Plan> {
         mk("SP-4", sp.clone(), true, Some(if th { 5184 } else if heavy { 300 } else { 1500 })),
         mk("KP-3", variants_kp(), true, Some(if th { 5103 } else if heavy { 500 } else { 5103 })),
         mk("KP-4", variants_kp(), true, Some(if th { 45927 } else if heavy { 500 } else { 6000 })),
-        mk("KPH-0", variants_kp(), heavy || !th, None),
     ];
+    // (long searches: in the uninterrupted sweeps only -- with the cut-off at each of their 10^2..10^3 polls they would eat the budget)
+    if !heavy { p.push(mk("KPH-0", variants_kp(), !th, None)); }
     if th { p.push(mk("TM-N2.1", variants_ca(), true, None)); p.push(mk("TM-N3.1", variants_ca(), true, None)); p.push(mk("KP-5", variants_kp(), true, Some(if heavy { 5000 } else { 60000 }))); }
     p
 }
@@ -283,10 +284,19 @@ fn c02(tier: &str) -> i32 {
     let (par_cov, par_ok) = crate::sched::c02_parallel_part(&rep);
     let (all_cov, all_ok, _, _) = crate::sched::all_part(&rep, "C02", crate::sched::CutMode::None, false, false, 6.0, 300.0);
     let par_ok = par_ok && all_ok;
+    // input dimension of the parallel solver: one worker (deterministic) over the bounded-exhaustive families, uninterrupted and
+    // with the cut-off at every poll, every run judged by the same solution oracle (seeded change C02r6: the parallel solver
+    // took the decisions of the relaxed diagram's best path, the value stayed right: input dependent, not schedule dependent)
+    let (a1, s1, c1) = run_plans(&rep, &["C02"], &par1_plans(th, Mode::Plain, false), deadline(&rep, 8, 300));
+    let mut cutp = par1_plans(th, Mode::Cutoffs, false);
+    for p in cutp.iter_mut() { p.limit = Some(p.limit.unwrap_or(u64::MAX).min(if th { 2000 } else { 150 })); }
+    let (a2, s2, c2) = run_plans(&rep, &["C02"], &cutp, deadline(&rep, 6, 300));
     let mut cov_extra = json!({"parallel_part": par_cov, "all": all_cov});
     let _ = &mut cov_extra;
-    let mut cov = cov_common(&agg, scopes, complete && par_ok);
-    cov["evaluations"] = json!(agg.runs + agg.cut_runs);
+    let mut cov = cov_common(&agg, scopes, complete && par_ok && c1 && c2);
+    cov["parallel_single_worker_part"] = par1_cov(&a1, s1, c1);
+    cov["parallel_single_worker_part_with_cutoff"] = par1_cov(&a2, s2, c2);
+    cov["evaluations"] = json!(agg.runs + agg.cut_runs + a1.runs + a2.runs + a2.cut_runs);
     cov["distinct_nontrivial"] = json!(agg.nontrivial + agg.cut_nontrivial);
     cov["rule"] = json!("sequential part: every run of the C01 space (uninterrupted) and of the C05 space (cut off at every poll index k) is judged by the solution oracle: value present <=> solution present, Completion.best_value == best_value() == best_lower_bound(), <= 1 decision per variable, model-side replay of the decisions (domain membership at each step) sums to exactly the value, after an uninterrupted run best_upper_bound() == value (== lb == isize::MIN when infeasible); non-trivial = uninterrupted runs with >= 2 sub-problems + interrupted runs which had explored >= 1 sub-problem; parallel part: see parallel_part (all schedules up to a pre-emption bound on the real ParallelSolver)");
     cov["parallel_part"] = cov_extra["parallel_part"].clone();
